@@ -2,11 +2,20 @@ import OdcGeo.Model.C18
 namespace OdcGeo.C18.Drv
 open OdcGeo OdcGeo.IO OdcGeo.C18
 
-/-- `w<part>` or `f` -/
-def parseKind? (s : String) : Option Kind :=
-  if s = "f" then some .fin
-  else if s.startsWith "w" then ((s.drop 1).toString.toNat?).map Kind.write
-  else none
+/-- `w<part>` or `f`, optionally followed by `!c` / `!u`: the thread's create call, resp. its
+upload_part / complete call, raises the injected transient error -/
+def parseKindF? (s0 : String) : Option (Kind × Bool × Bool) :=
+  let (s, fc, fu) :=
+    if s0.endsWith "!c" then ((s0.dropEnd 2).toString, true, false)
+    else if s0.endsWith "!u" then ((s0.dropEnd 2).toString, false, true)
+    else (s0, false, false)
+  let k : Option Kind :=
+    if s = "f" then some .fin
+    else if s.startsWith "w" then ((s.drop 1).toString.toNat?).map Kind.write
+    else none
+  k.map (fun k => (k, fc, fu))
+
+def parseKind? (s : String) : Option Kind := (parseKindF? s).map (·.1)
 
 def fmtId (i : Nat) : String := if i = 0 then "\"\"" else s!"id{i}"
 
@@ -25,10 +34,14 @@ def traceLocal (cfg : Local.Cfg) : Local.State → List Nat → List String → 
 def fmtLocalOutcome : Local.PC → String
   | .done => "ok"
   | .failed => "AssertionError"
+  | .faulted => "TransientError"
   | _ => "running"
 
-def runLocal (fixed : Bool) (ks : List Kind) (sched : List Nat) (preset : Bool := false) : String :=
-  let cfg : Local.Cfg := { kind := kindOf ks, recheck := fixed }
+def runLocal (fixed : Bool) (kfs : List (Kind × Bool × Bool)) (sched : List Nat) (preset : Bool := false) : String :=
+  let ks := kfs.map (·.1)
+  let cfg : Local.Cfg := { kind := kindOf ks, recheck := fixed,
+                           faultCreate := fun t => (kfs.getD t (.write 0, false, false)).2.1,
+                           faultCall := fun t => (kfs.getD t (.write 0, false, false)).2.2 }
   let s0 := if preset then Local.initWithLock 1000 else Local.init
   let (s, labels) := traceLocal cfg s0 sched []
   let outs := (List.range ks.length).map (fun t => fmtLocalOutcome (s.pc t))
@@ -42,10 +55,14 @@ def traceDist (cfg : Dist.Cfg) : Dist.State → List Nat → List String → Dis
 def fmtDistOutcome : Dist.PC → String
   | .done => "ok"
   | .failed => "AssertionError"
+  | .faulted => "TransientError"
   | _ => "running"
 
-def runDist (ks : List Kind) (ws : List Nat) (sched : List Nat) (leftover : Option Nat := none) : String :=
-  let cfg : Dist.Cfg := { kind := kindOf ks, worker := fun t => ws.getD t 0 }
+def runDist (kfs : List (Kind × Bool × Bool)) (ws : List Nat) (sched : List Nat) (leftover : Option Nat := none) : String :=
+  let ks := kfs.map (·.1)
+  let cfg : Dist.Cfg := { kind := kindOf ks, worker := fun t => ws.getD t 0,
+                          faultCreate := fun t => (kfs.getD t (.write 0, false, false)).2.1,
+                          faultCall := fun t => (kfs.getD t (.write 0, false, false)).2.2 }
   let (s, labels) := traceDist cfg (Dist.initAfterPrep leftover) sched []
   let outs := (List.range ks.length).map (fun t => fmtDistOutcome (s.pc t))
   let nw := (ws.foldl max 0) + 1
@@ -71,6 +88,31 @@ def runDistN (ks : List Kind) (ws vn ln : List Nat) (sched : List Nat) : String 
   let vals := (List.range nw).filterMap (fun w => s.vars (cfg.varName w))
   let var := match vals.reverse with | [] => "N" | i :: _ => fmtId i
   s!"{",".intercalate labels} ; {",".intercalate (s.calls.reverse.map fmtCall)} ; uid={",".intercalate wids} var={var} ; {",".intercalate outs} ; lock={lock}"
+
+def parseSeqOp? (s : String) : Option Seq.Op :=
+  if s = "w" then some .write
+  else if s = "f" then some .fin
+  else if s = "ca" || s = "cA" then some .cancelAll
+  else if s = "cc" then some .cancelCur
+  else if s.startsWith "c" then ((s.drop 1).toString.toNat?).map Seq.Op.cancelId
+  else none
+
+def fmtSCall : Seq.SCall → String
+  | .create i => s!"create={fmtId i}"
+  | .upload p i => s!"upload:{p}={fmtId i}"
+  | .complete i => s!"complete={fmtId i}"
+  | .list => "list"
+  | .abort i => s!"abort={fmtId i}"
+
+def insertNat (x : Nat) : List Nat → List Nat
+  | [] => [x]
+  | y :: ys => if x ≤ y then x :: y :: ys else y :: insertNat x ys
+
+def runSeq (ops : List Seq.Op) : String :=
+  let (s, calls, oks) := Seq.run {} ops
+  let srt := fun (l : List Nat) => fmtList fmtId (l.foldr insertNat [])
+  let res := oks.map (fun b => if b then "ok" else "NoSuchUpload")
+  s!"{",".intercalate res} ; {",".intercalate (calls.map fmtSCall)} ; uid={fmtId s.uploadId} ; active={srt s.active} ; completed={srt s.completed} ; aborted={srt s.aborted}"
 
 def parseBytes (s : String) : Bytes := s.toList.map Char.toNat
 
@@ -105,14 +147,17 @@ def run (args : List String) : Option String :=
   match args with
   | ["local", fixed, ks, sched] => do
     let fixed ← parseBool? fixed
-    let ks ← parseList? parseKind? ks
+    let ks ← parseList? parseKindF? ks
     let sched ← parseList? parseNat? sched
     pure (runLocal fixed ks sched)
   | ["local", fixed, ks, sched, "P"] => do
     let fixed ← parseBool? fixed
-    let ks ← parseList? parseKind? ks
+    let ks ← parseList? parseKindF? ks
     let sched ← parseList? parseNat? sched
     pure (runLocal fixed ks sched true)
+  | ["seq", ops] => do
+    let ops ← parseList? parseSeqOp? ops
+    pure (runSeq ops)
   | ["distn", ks, ws, vn, ln, sched] => do
     let ks ← parseList? parseKind? ks
     let ws ← parseList? parseNat? ws
@@ -121,13 +166,13 @@ def run (args : List String) : Option String :=
     let sched ← parseList? parseNat? sched
     pure (runDistN ks ws vn ln sched)
   | ["dist", ks, ws, sched, left] => do
-    let ks ← parseList? parseKind? ks
+    let ks ← parseList? parseKindF? ks
     let ws ← parseList? parseNat? ws
     let sched ← parseList? parseNat? sched
     let left ← if left = "S" then some (some 99) else if left = "N" then some none else none
     pure (runDist ks ws sched left)
   | ["dist", ks, ws, sched] => do
-    let ks ← parseList? parseKind? ks
+    let ks ← parseList? parseKindF? ks
     let ws ← parseList? parseNat? ws
     let sched ← parseList? parseNat? sched
     pure (runDist ks ws sched)
